@@ -1440,6 +1440,11 @@ class Router(NetworkNode, discriminator="router"):
         :param frame: The frame to be routed or forwarded.
         :param from_network_interface: The network interface from which the frame originated.
         """
+        # ARP stays on its own segment: an ARP frame that was not for this router is not routed (resolving its target
+        # would make every router on the segment send ARP requests of its own, answering one another without end)
+        if frame.ip and frame.ip.protocol == "udp" and frame.is_arp:
+            return
+
         # check if frame is addressed to this Router but has failed to be received by a service of application at the
         # receive_frame stage
         if frame.ip:
